@@ -16,7 +16,7 @@ RULE = ("Generated repositories (C11's generator: 2-6 files, all seven validator
         "`affects` diff + `**` glob; a quarter with one malformed rule so that an Err races with diagnostics) are executed "
         "8 (quick) / 16 (thorough) times each under perturbations that must not matter: fresh process (new SipHash keys), "
         "1 core vs all cores, TOKIO_WORKER_THREADS 1 vs 16, files created in a different order, diff file sections "
-        "permuted, cwd = root vs a subdirectory, validation vs `list`. Exit status and the canonicalised multiset of "
+        "permuted, the AI endpoint answering at once or late (so that AI and Lua tasks finish in either order), cwd = root vs a subdirectory, validation vs `list`. Exit status and the canonicalised multiset of "
         "diagnostics (whole diagnostic objects) / listed blocks must be identical; error text is not compared. Thorough "
         "adds a ThreadSanitizer slice (a report seen in >=2 of 5 repeats is a violation, a single one inconclusive). "
         "A case is one repository; non-trivial = >=3 files and >=3 validators reporting; distinct = hash of files + diff.")
@@ -82,7 +82,6 @@ def run_job(job, ctx):
             attr = r.choice(['line-count="oops"', 'keep-sorted="sideways"', 'line-pattern="("', 'check-lua=""', 'severity="loud" line-count="<0"'])
             s.files[path] += "%s <block name=\"mal\" %s>\nq\n%s </block>\n" % (opener, attr, opener)
         ai = fake_ai.instance()
-        ai.begin(scenario.ai_script(s))
         args = ["**"] if diff else []
         if diff and r.random() < 0.5:
             args = r.choice([["**"], []]) + ["--ignore", r.choice(s.order)]     # options are part of the input
@@ -98,6 +97,9 @@ def run_job(job, ctx):
                 cfg.update({"workers": None, "affinity": None, "cwd": "", "mode": "run"})
             if k == 3:
                 cfg.update({"workers": None, "affinity": None, "cwd": ""})
+            # the endpoint answers at once or late, so that the AI task finishes before or after the Lua tasks
+            cfg["ai_delay"] = r.choice([0, 0, 0.12])
+            ai.begin(scenario.ai_script(s, {tok: cfg["ai_delay"] for tok in s.ai} if cfg["ai_delay"] else None))
             env = dict(ai.env())
             if not diff:
                 env.update(TERM)
@@ -132,8 +134,8 @@ def judge(s, diff, malformed, results, configs, desc, fl):
     nfiles = len(s.files)
     vals = s.validators_active()
     nontrivial = nfiles >= 3 and len(vals) >= 3
-    sets = {"perturbations": sorted({"%s/%s/%s/%s/%s" % (c["workers"] or "dflt", c["affinity"] or "all", c["order"], c["diff_order"],
-                                                         "sub" if c["cwd"] else "root") for c in configs}),
+    sets = {"perturbations": sorted({"%s/%s/%s/%s/%s/%s" % (c["workers"] or "dflt", c["affinity"] or "all", c["order"], c["diff_order"],
+                                                            "sub" if c["cwd"] else "root", "ai-late" if c.get("ai_delay") else "ai-fast") for c in configs}),
             "kind": ["malformed" if malformed else "clean", "diff" if diff else "scan"], "flavour": [fl]}
     wit = {"files": files_text(s.files, 2000), "diff": diff[:2000], "malformed": malformed, "desc": desc}
     for r_ in results:
